@@ -154,7 +154,9 @@ Notation step := (step fa en).
 Notation run := (run fa en).
 
 (** the session slot and the Builders' caches *)
-Definition sessall (s : state) := (sess s, bcache s).
+Definition sessall (s : state) := (sess s, bcache s, bk s).
+Lemma sessall_bk : forall s s', sessall s' = sessall s -> bk s' = bk s.
+Proof. intros s s' H. unfold sessall in H. now inversion H. Qed.
 
 (** what stays untouched by imports in a state without sqlframe modules *)
 Definition frame (s s' : state) : Prop :=
@@ -571,7 +573,8 @@ Record Inv (E : option string) (ss : sstate) (s : state) : Prop := mkInv {
              | Some (e, _) => forall k, assoc (f_conn_key fa) (config s) = Some k -> in_hist e (Some k) (hist ss) = true
              | None => True
              end;
-  inv_sess : sess_ok ss s
+  inv_sess : sess_ok ss s;
+  inv_bk : forall e' k, assoc e' (bk s) = Some k -> in_hist e' (Some k) (hist ss) = true
 }.
 
 Lemma Inv_init : Inv None sinit init_state.
@@ -579,6 +582,7 @@ Proof.
   constructor; cbn.
   - apply attr_inv_init. - right; reflexivity. - split; [apply realc_init | reflexivity].
   - intros k H; discriminate. - intros _; exact I. - split; [exact I | intros e e0 c0 H; discriminate].
+  - intros e' k H; discriminate.
 Qed.
 
 Lemma realc_attr_inv : forall s, realc s -> attr_inv s.
@@ -634,7 +638,7 @@ Qed.
 Lemma sess_ok_snoc : forall ss s s' x ac lg,
   sessall s' = sessall s -> sess_ok ss s -> sess_ok (mkS ac (hist ss ++ [x]) lg) s'.
 Proof.
-  intros ss s s' x ac lg He [H1 H2]. unfold sessall in He. inversion He as [[Hs Hb]]. unfold sess_ok. rewrite Hs, Hb.
+  intros ss s s' x ac lg He [H1 H2]. unfold sessall in He. inversion He as [[Hs Hb Hk]]. unfold sess_ok. rewrite Hs, Hb.
   split.
   - destruct (sess s) as [|e0 c0|]; [exact I | now apply sess_valid_snoc | cbn [hist]; now apply tainted_snoc].
   - intros e e0 c0 H. apply sess_valid_snoc. exact (H2 _ _ _ H).
@@ -680,12 +684,14 @@ Proof.
         unfold multi_mode in Hm. apply andb_true_iff in Hm as [Hm _]. apply andb_true_iff in Hm as [_ Hm].
         rewrite Hm in Hk. discriminate.
     + apply (sess_ok_snoc ss s); [exact Hse | exact (inv_sess _ _ _ HI)].
+    + intros e' k H. apply in_hist_snoc. apply (inv_bk _ _ _ HI e' k).
+      unfold Activate.activate in H. destruct (assoc e (f_engines fa)); exact H.
 Qed.
 
 Lemma sess_ok_same : forall ss ss' s s',
   hist ss' = hist ss -> sessall s' = sessall s -> sess_ok ss s -> sess_ok ss' s'.
 Proof.
-  intros ss ss' s s' Hh He H. unfold sessall in He. inversion He as [[Hs Hb]].
+  intros ss ss' s s' Hh He H. unfold sessall in He. inversion He as [[Hs Hb Hk]].
   unfold sess_ok, sess_valid in *. rewrite Hh, Hs, Hb. exact H.
 Qed.
 
@@ -708,6 +714,8 @@ Proof.
     + intros k Hk. rewrite Hc in Hk. discriminate.
     + intros _; exact I.
     + apply (sess_ok_same ss _ s); [reflexivity | exact Hse | exact (inv_sess _ _ _ HI)].
+    + intros e' k H. apply (inv_bk _ _ _ HI e' k). unfold Activate.deactivate in H. cbn [snd] in H.
+      destruct ((any_present s || junk s) && installed en); exact H.
 Qed.
 
 Lemma step_import : forall E ss s fm p,
@@ -730,6 +738,7 @@ Proof.
       * rewrite Hk1. exact (inv_cfg _ _ _ HI).
       * rewrite Hk1. exact (inv_cfgm _ _ _ HI).
       * apply (sess_ok_same ss ss s); [reflexivity | exact Hk2 | exact (inv_sess _ _ _ HI)].
+      * rewrite (sessall_bk _ _ Hk2). exact (inv_bk _ _ _ HI).
   - destruct Hact as [Hr Hcfg].
     destruct (real_view fm p s Hr) as [Ho [Hr' [Hf1 [Hf2 Hf3]]]].
     split.
@@ -741,6 +750,7 @@ Proof.
       * rewrite Hf1. exact (inv_cfg _ _ _ HI).
       * rewrite Hf1. exact (inv_cfgm _ _ _ HI).
       * apply (sess_ok_same ss ss s); [reflexivity | exact Hf2 | exact (inv_sess _ _ _ HI)].
+      * rewrite (sessall_bk _ _ Hf2). exact (inv_bk _ _ _ HI).
 Qed.
 
 Lemma realc_set_pattr : forall s pa, realc s -> realc (set_pattr s pa).
@@ -764,14 +774,15 @@ Proof.
     + exact (inv_cfg _ _ _ HI).
     + exact (inv_cfgm _ _ _ HI).
     + exact (inv_sess _ _ _ HI).
+    + exact (inv_bk _ _ _ HI).
 Qed.
 
 Lemma Inv_sessall : forall E ss s s',
   Inv E ss s ->
   top s' = top s -> sql s' = sql s -> tst s' = tst s -> subs s' = subs s -> pattr s' = pattr s -> config s' = config s ->
-  sess_ok ss s' -> Inv E ss s'.
+  bk s' = bk s -> sess_ok ss s' -> Inv E ss s'.
 Proof.
-  intros E ss s s' HI Ht Hq Hts Hsb Hpa Hc Hs. constructor.
+  intros E ss s s' HI Ht Hq Hts Hsb Hpa Hc Hbk Hs. constructor.
   - intros f e' H. rewrite Hsb in H. rewrite Hpa. exact (inv_attr _ _ _ HI f e' H).
   - exact (inv_hist _ _ _ HI).
   - pose proof (inv_act _ _ _ HI) as H. destruct (active ss) as [[e c]|].
@@ -782,6 +793,7 @@ Proof.
   - rewrite Hc. exact (inv_cfg _ _ _ HI).
   - rewrite Hc. exact (inv_cfgm _ _ _ HI).
   - exact Hs.
+  - rewrite Hbk. exact (inv_bk _ _ _ HI).
 Qed.
 
 (** a connection given now is the session's, unless the process's current session already is this engine's *)
@@ -846,11 +858,12 @@ Qed.
 
 Lemma step_goc_session : forall E ss s e c,
   Inv E ss s -> Last ss s -> active ss = Some (e, c) ->
+  (forall k, c = Some k -> assoc e (bk s) = Some k) ->      (* ACTIVATE_CONFIG has just been replayed into the Builder *)
   accept fa en ss GetOrCreate (fst (goc_session fa en e s)) (config (snd (goc_session fa en e s))) = true
   /\ Inv E ss (snd (goc_session fa en e s))
   /\ (tainted (hist ss) = true \/ exists c0, sess (snd (goc_session fa en e s)) = SLive e c0).
 Proof.
-  intros E ss s e c HI HL Hac. pose proof (inv_act _ _ _ HI) as Hact. rewrite Hac in Hact.
+  intros E ss s e c HI HL Hac Hbkc. pose proof (inv_act _ _ _ HI) as Hact. rewrite Hac in Hact.
   unfold goc_session.
   - destruct Hact as [Hh [Hin Hc]]. pose proof Hh as [Ht [Hq _]].
     destruct (inv_sess _ _ _ HI) as [Hse Hbc].
@@ -872,37 +885,37 @@ Proof.
     { intros e0 c0 Hv Hh0. pose proof (sess_valid_engine _ _ _ _ Hh0 Hv) as H1. pose proof (hist_engine_in _ _ _ _ Hh0 Hin) as H2.
       rewrite H1 in H2. now inversion H2. }
     (* the creation of a new session of engine e from the stored configuration *)
-    assert (Hcreate : forall s0, Inv E ss s0 -> config s0 = config s ->
-              accept fa en ss GetOrCreate (fst (remember fa e (create_session fa en e s0)))
-                     (config (snd (remember fa e (create_session fa en e s0)))) = true
-              /\ Inv E ss (snd (remember fa e (create_session fa en e s0)))
-              /\ (tainted (hist ss) = true \/ exists c0, sess (snd (remember fa e (create_session fa en e s0))) = SLive e c0)).
-    { intros s0 HI0 Hcfg0. unfold create_session. rewrite Hcfg0.
-      set (c' := if mem e (f_noconn fa) then None else assoc (f_conn_key fa) (config s)).
+    assert (Hcreate :
+              accept fa en ss GetOrCreate (fst (remember fa e (create_session fa en e s)))
+                     (config (snd (remember fa e (create_session fa en e s)))) = true
+              /\ Inv E ss (snd (remember fa e (create_session fa en e s)))
+              /\ (tainted (hist ss) = true \/ exists c0, sess (snd (remember fa e (create_session fa en e s))) = SLive e c0)).
+    { unfold create_session.
+      set (c' := if mem e (f_noconn fa) then None else assoc e (bk s)).
       destruct (is_bad c' && mem e (bad_raises en)) eqn:Hbad.
       - apply andb_true_iff in Hbad as [Hb _].
         assert (Ht9 : tainted (hist ss) = true).
         { unfold c' in Hb. destruct (mem e (f_noconn fa)); [discriminate|].
-          destruct (assoc (f_conn_key fa) (config s)) as [k|] eqn:Hk; [|discriminate].
+          destruct (assoc e (bk s)) as [k|] eqn:Hk; [|discriminate].
           cbn in Hb. destruct k as [|[|[|[|[|[|[|[|[|[|k]]]]]]]]]]; try discriminate.
-          destruct (inv_cfg _ _ _ HI _ Hk) as [e' He']. now apply (in_hist_bad_tainted e'). }
+          apply (in_hist_bad_tainted e). exact (inv_bk _ _ _ HI e 9 Hk). }
         cbn [remember fst snd]. split; [unfold accept; cbn [snext]; rewrite Hac; cbn; rewrite Ht9; reflexivity|].
         split; [|left; exact Ht9].
-        apply (Inv_sessall E ss s0); try reflexivity; [exact HI0|].
-        destruct (inv_sess _ _ _ HI0) as [_ H2]. split; [exact Ht9 | exact H2].
+        apply (Inv_sessall E ss s); try reflexivity; [exact HI|].
+        destruct (inv_sess _ _ _ HI) as [_ H2]. split; [exact Ht9 | exact H2].
       - assert (Hv : sess_valid ss e c').
         { unfold c'. destruct (mem e (f_noconn fa)) eqn:Hn.
           - right; split; [exact Hn | split; [reflexivity | exists c; exact Hin]].
-          - left. destruct (assoc (f_conn_key fa) (config s)) as [k|] eqn:Hk.
-            + exact (Hconn k eq_refl).
-            + destruct c as [k|]; [discriminate (Hc k eq_refl)|]. exact Hin. }
+          - left. destruct (assoc e (bk s)) as [k|] eqn:Hk.
+            + exact (inv_bk _ _ _ HI e k Hk).
+            + destruct c as [k|]; [discriminate (Hbkc k eq_refl)|]. exact Hin. }
         assert (Hfr : fresh_ok ss e c c').
         { unfold fresh_ok. destruct c as [k|]; [|exact I]. unfold c'.
-          destruct (mem e (f_noconn fa)) eqn:Hn; [right; left; reflexivity | right; right; exact (Hc k eq_refl)]. }
-        assert (HI1 : Inv E ss (set_sess s0 (SLive e c'))).
-        { apply (Inv_sessall E ss s0); try reflexivity; [exact HI0|].
-          destruct (inv_sess _ _ _ HI0) as [_ H2]. split; [exact Hv | exact H2]. }
-        destruct (Inv_remember E ss e (GSession e c', set_sess s0 (SLive e c')) HI1) as [Ho HI2].
+          destruct (mem e (f_noconn fa)) eqn:Hn; [right; left; reflexivity | right; right; exact (Hbkc k eq_refl)]. }
+        assert (HI1 : Inv E ss (set_sess s (SLive e c'))).
+        { apply (Inv_sessall E ss s); try reflexivity; [exact HI|].
+          destruct (inv_sess _ _ _ HI) as [_ H2]. split; [exact Hv | exact H2]. }
+        destruct (Inv_remember E ss e (GSession e c', set_sess s (SLive e c')) HI1) as [Ho HI2].
         { intros e0 c0 H. cbn in H. inversion H; subst. exact Hv. }
         rewrite Ho. cbn [fst]. split; [apply (accept_session ss e c); [exact Hac | exact Hv | right; exact Hfr]|].
         split; [exact HI2|]. right. exists c'. rewrite remember_sess. reflexivity. }
@@ -938,7 +951,7 @@ Proof.
         -- unfold fresh_ok. destruct c; [left; exact Hlg | exact I].
         -- split; [exact HI | right; exact Hs1].
     + destruct (sess s) as [|e0 c0|] eqn:Hs.
-      * apply (Hcreate s HI eq_refl).
+      * exact Hcreate.
       * destruct (String.eqb e0 e || f_singleton_global fa) eqn:Hb.
         -- pose proof (Hlive _ _ Hse Hb) as He0. subst e0.
            destruct (Inv_remember E ss e (GSession e c0, s) HI) as [Ho HI2].
@@ -950,7 +963,7 @@ Proof.
            ++ split; [apply (accept_session ss e c); [exact Hac | exact Hse | right]|].
               ** unfold fresh_ok. destruct c; [left; exact Hlg | exact I].
               ** split; [exact HI2 | right; exists c0; exact Hsr].
-        -- apply (Hcreate s HI eq_refl).
+        -- exact Hcreate.
       * cbn [fst snd]. split; [unfold accept; cbn [snext]; rewrite Hac; cbn; rewrite Hse; reflexivity|].
         split; [exact HI | left; exact Hse].
 Qed.
@@ -961,7 +974,7 @@ Lemma Inv_aux : forall E ss s s',
   sessall s' = sessall s -> Inv E ss s'.
 Proof.
   intros E ss s s' HI Ht Hq Hts Hsb Hpa Hc Hs.
-  apply (Inv_sessall E ss s); try assumption.
+  apply (Inv_sessall E ss s); try assumption; [exact (sessall_bk _ _ Hs)|].
   apply (sess_ok_same ss ss s); [reflexivity | exact Hs | exact (inv_sess _ _ _ HI)].
 Qed.
 
@@ -993,16 +1006,31 @@ Proof.
   destruct (active ss) as [[e c]|] eqn:Hac.
   - destruct Hact as [Hh [Hin _]]. pose proof Hh as [_ [Hq _]].
     unfold Activate.import_sql. rewrite Hq, Hsr.
-    set (s2 := set_bd s (apply_cfg fa e (config s) (bd s))).
-    assert (HI2 : Inv E ss s2) by (apply (Inv_aux E ss s); try reflexivity; exact HI).
+    set (s2 := replay_config fa e s).
+    assert (Hconn : forall k, assoc (f_conn_key fa) (config s) = Some k -> in_hist e (Some k) (hist ss) = true).
+    { intros k Hk. destruct (inv_hist _ _ _ HI) as [Hm | Hh0].
+      - pose proof (inv_cfgm _ _ _ HI Hm) as H. rewrite Hac in H. exact (H k Hk).
+      - destruct (inv_cfg _ _ _ HI _ Hk) as [e' He'].
+        pose proof (hist_engine_in _ _ _ _ Hh0 He') as H1. pose proof (hist_engine_in _ _ _ _ Hh0 Hin) as H2.
+        rewrite H1 in H2. inversion H2; subst e'. exact He'. }
+    assert (HI2 : Inv E ss s2).
+    { apply (Inv_sessall E ss (set_bk s (bk s2))); try reflexivity; [|exact (inv_sess _ _ _ HI)].
+      destruct HI. constructor; try assumption.
+        intros e' k H. unfold s2, replay_config in H. cbn [bk set_bk] in H.
+        destruct (assoc (f_conn_key fa) (config s)) as [k0|] eqn:Hk0; [|now apply inv_bk0].
+        cbn in H. destruct (String.eqb e' e) eqn:He; [|now apply inv_bk0].
+        apply String.eqb_eq in He. subst e'. inversion H; subst. exact (Hconn k eq_refl). }
     assert (HL2 : Last ss s2) by exact HL.
-    destruct (step_goc_session E ss s2 e c HI2 HL2 Hac) as [Hacc [HI3 Hs3]].
+    assert (Hbkc : forall k, c = Some k -> assoc e (bk s2) = Some k).
+    { intros k Hc. pose proof (inv_act _ _ _ HI) as Ha. rewrite Hac in Ha. destruct Ha as [_ [_ Hcc]].
+      unfold s2, replay_config. cbn [bk set_bk]. rewrite (Hcc k Hc). cbn. now rewrite String.eqb_refl. }
+    destruct (step_goc_session E ss s2 e c HI2 HL2 Hac Hbkc) as [Hacc [HI3 Hs3]].
     destruct (note_dial_spec E ss e (goc_session fa en e s2) HI3) as [Ho [Hcf HI4]].
     rewrite Ho, Hcf. split; [exact Hacc|]. split.
     + apply (Inv_ss E ss); [exact HI4 | rewrite Hac; reflexivity | reflexivity].
     + unfold Last, LastP. cbn [lastgoc hist]. split; [exists c; exact Hin|].
       destruct Hs3 as [Ht | [c0 Hs0]]; [left; exact Ht|]. right. exists c0.
-      pose proof (note_dial_sessall e (goc_session fa en e s2)) as Hsa. unfold sessall in Hsa. inversion Hsa as [[H1 H2]].
+      pose proof (note_dial_sessall e (goc_session fa en e s2)) as Hsa. unfold sessall in Hsa. inversion Hsa as [[H1 H2 H3]].
       rewrite H1. exact Hs0.
   - destruct Hact as [Hr Hcfg].
     destruct (import_sql_real s Hr) as [Ho [Hr' [Hf1 [Hf2 Hf3]]]].
@@ -1013,10 +1041,11 @@ Proof.
       - rewrite Hac. split; [exact Hr' | congruence].
       - rewrite Hf1. exact (inv_cfg _ _ _ HI).
       - intros _. rewrite Hac. exact I.
-      - apply (sess_ok_same ss ss s); [reflexivity | exact Hf2 | exact (inv_sess _ _ _ HI)]. }
+      - apply (sess_ok_same ss ss s); [reflexivity | exact Hf2 | exact (inv_sess _ _ _ HI)].
+      - rewrite (sessall_bk _ _ Hf2). exact (inv_bk _ _ _ HI). }
     assert (HI2 : Inv E ss (set_lastd s1 LNone)) by (apply (Inv_aux E ss s1); try reflexivity; exact HI').
     assert (HL2 : Last ss (set_lastd s1 LNone)).
-    { unfold Last, LastP in *. unfold sessall in Hf2. inversion Hf2 as [[H1 H2]]. cbn [sess bcache set_lastd]. rewrite H1, H2. exact HL. }
+    { unfold Last, LastP in *. unfold sessall in Hf2. inversion Hf2 as [[H1 H2 H3]]. cbn [sess bcache set_lastd]. rewrite H1, H2. exact HL. }
     unfold accept. cbn [snext]. rewrite Hac. cbn iota. rewrite Hac.
     unfold Activate.base_view. destruct (installed en) eqn:Hi; cbn [fst snd].
     + split; [cbn [config set_lastd]; rewrite Hf1, Hcfg; reflexivity | split; [exact HI2 | exact HL2]].
@@ -1053,7 +1082,8 @@ Proof.
       - rewrite Hac. split; [exact Hr' | congruence].
       - rewrite Hf1. exact (inv_cfg _ _ _ HI).
       - intros _. rewrite Hac. exact I.
-      - apply (sess_ok_same ss ss s); [reflexivity | exact Hf2 | exact (inv_sess _ _ _ HI)]. }
+      - apply (sess_ok_same ss ss s); [reflexivity | exact Hf2 | exact (inv_sess _ _ _ HI)].
+      - rewrite (sessall_bk _ _ Hf2). exact (inv_bk _ _ _ HI). }
     unfold Activate.base_view. destruct (installed en); cbn [fst snd];
       (split; [rewrite Hf1, Hcfg; reflexivity | exact HI']).
 Qed.
@@ -1142,7 +1172,7 @@ Qed.
 
 Lemma Last_step : forall ss s ev, ev <> GetOrCreate -> Last ss s -> Last (snext ss ev) (snd (step s ev)).
 Proof.
-  intros ss s ev Hne HL. pose proof (step_sessall s ev Hne) as Hsa. unfold sessall in Hsa. inversion Hsa as [[H1 H2]].
+  intros ss s ev Hne HL. pose proof (step_sessall s ev Hne) as Hsa. unfold sessall in Hsa. inversion Hsa as [[H1 H2 H3]].
   assert (Hlg : lastgoc (snext ss ev) = lastgoc ss) by (destruct ev; try reflexivity; contradiction Hne; reflexivity).
   assert (Hh : forall e c, in_hist e c (hist ss) = true -> in_hist e c (hist (snext ss ev)) = true).
   { intros e c H. destruct ev; cbn [snext hist]; try exact H; try (now apply in_hist_snoc). contradiction Hne; reflexivity. }
@@ -1274,7 +1304,7 @@ Lemma goc_core_active : forall e s, sql s = Some (SfPkg e) -> same_core s (snd (
 Proof.
   intros e s Hq. unfold get_or_create, Activate.import_sql. rewrite Hq.
   destruct (mem e (f_selfref fa)); [repeat split|].
-  set (s2 := set_bd s (apply_cfg fa e (config s) (bd s))).
+  set (s2 := replay_config fa e s).
   apply (same_core_trans s s2); [repeat split|].
   apply (same_core_trans s2 (snd (goc_session fa en e s2))); [apply goc_session_core | apply note_dial_core].
 Qed.
@@ -1429,12 +1459,12 @@ Theorem goc_dialects_given : forall s e k i v,
   exists d, lastd (snd (get_or_create fa en s)) = LSome d /\ nth_dial i d = v.
 Proof.
   intros s e k i v Hq Hsr Hk Hi Hin Hu e0 c0. unfold get_or_create, Activate.import_sql. rewrite Hq, Hsr.
-  set (s2 := set_bd s (apply_cfg fa e (config s) (bd s))).
+  set (s2 := replay_config fa e s).
   pose proof (goc_session_bd e s2) as Hbd.
   destruct (goc_session fa en e s2) as [o s3]. cbn [snd] in Hbd. unfold note_dial.
   destruct o; cbn [fst snd]; intros Ho; try discriminate.
   eexists; split; [reflexivity|].
-  rewrite Hbd. unfold s2. cbn [bd set_bd].
+  rewrite Hbd. unfold s2, replay_config. cbn [bd set_bd set_bk].
   assert (Hl : dlook e i (apply_cfg fa e (config s) (bd s)) = Some v).
   { apply apply_cfg_given; [exact Hu|]. left. exists k. repeat split; assumption. }
   unfold dial_of, nth_dial, slot_of.
